@@ -226,7 +226,8 @@ def simulate_scene(scene: Scene, obj=None, probes=None) -> np.ndarray:
 
 
 def build_library(scene: Scene, intensities: np.ndarray, *, com_fit="no_shift", install_truth=True, obj_init=None, seed=0, detector_mask=None,
-                  val_ratio=0.0, val_mode="grid", learn_descan=False, learn_scan_positions=False, orthogonalize=True, vectorized=True, probe_from="params"):
+                  val_ratio=0.0, val_mode="grid", learn_descan=False, learn_scan_positions=False, orthogonalize=True, vectorized=True, probe_from="params",
+                  detector_units="A^-1"):
     """Runs the library's own construction + preprocessing on the simulated data and returns the Ptychography object.
 
     obj_init: None -> truth object installed via ObjectPixelated.from_array; "uniform" -> library default initial object.
@@ -241,9 +242,14 @@ def build_library(scene: Scene, intensities: np.ndarray, *, com_fit="no_shift", 
 
     sink = io.StringIO()
     with contextlib.redirect_stdout(sink):
+        if detector_units == "mrad":
+            # the same calibration expressed as scattering angle: alpha = lambda * k (the library converts back with the probe energy)
+            dq = [scene.recip_sampling[0] * scene.wavelength * 1e3, scene.recip_sampling[1] * scene.wavelength * 1e3]
+        else:
+            dq = [scene.recip_sampling[0], scene.recip_sampling[1]]
         d4 = Dataset4dstem.from_array(
             array=np.asarray(intensities, dtype=np.float32), name="vf-scene", origin=np.zeros(4),
-            sampling=[scene.scan_step_A[0], scene.scan_step_A[1], scene.recip_sampling[0], scene.recip_sampling[1]], units=["A", "A", "A^-1", "A^-1"],
+            sampling=[scene.scan_step_A[0], scene.scan_step_A[1], dq[0], dq[1]], units=["A", "A", detector_units, detector_units],
         )
         pdset = PtychographyDatasetRaster.from_dataset4dstem(d4, detector_mask=detector_mask, verbose=0, learn_descan=learn_descan, learn_scan_positions=learn_scan_positions)
         pdset.preprocess(com_fit_function=com_fit, force_com_rotation=0, force_com_transpose=False, plot_rotation=False, plot_com=False, vectorized=vectorized, probe_energy=scene.energy)
